@@ -459,7 +459,7 @@ theorem inq_retrMoreJob (j : Job) (newc : Nat) : (retrMoreJob j newc).inq = j.in
   unfold retrMoreJob Job.inq
   cases hu : j.ub with
   | none => simp
-  | some f => dsimp only; split <;> trace_state
+  | some f => dsimp only; cases j.master <;> simp
 
 theorem master_not_inq {c : Cfg} {g : Nat} {j : Job} (h : jobOK c g j) (hm : j.master = true) :
     j.inq = false := by
